@@ -355,11 +355,11 @@ func (t *ImmutableTree) getRangeProof(keyStart, keyEnd []byte, limit int) (proof
 	}
 
 	// 1: Special case if limit is 1.
-	// 2: Special case if keyEnd is left.key+1.
+	// 2: Special case if keyEnd is the successor of left.key.
 	_stop := false
 	if limit == 1 {
 		_stop = true // case 1
-	} else if keyEnd != nil && bytes.Compare(cpIncr(left.key), keyEnd) >= 0 {
+	} else if keyEnd != nil && bytes.Compare(cpSucc(left.key), keyEnd) >= 0 {
 		_stop = true // case 2
 	}
 	if _stop {
@@ -370,7 +370,7 @@ func (t *ImmutableTree) getRangeProof(keyStart, keyEnd []byte, limit int) (proof
 	}
 
 	// Get the key after left.key to iterate from.
-	afterLeft := cpIncr(left.key)
+	afterLeft := cpSucc(left.key)
 
 	// Traverse starting from afterLeft, until keyEnd or the next leaf
 	// after keyEnd.
@@ -427,7 +427,7 @@ func (t *ImmutableTree) getRangeProof(keyStart, keyEnd []byte, limit int) (proof
 				values = append(values, node.value)
 				// Terminate if we've found keyEnd-1 or after.
 				// We don't want to fetch any leaves for it.
-				if keyEnd != nil && bytes.Compare(cpIncr(node.key), keyEnd) >= 0 {
+				if keyEnd != nil && bytes.Compare(cpSucc(node.key), keyEnd) >= 0 {
 					return true
 				}
 
@@ -462,7 +462,7 @@ func (t *ImmutableTree) getRangeProof(keyStart, keyEnd []byte, limit int) (proof
 // GetWithProof gets the value under the key if it exists, or returns nil.
 // A proof of existence or absence is returned alongside the value.
 func (t *ImmutableTree) GetWithProof(key []byte) (value []byte, proof *RangeProof, err error) {
-	proof, _, values, err := t.getRangeProof(key, cpIncr(key), 2)
+	proof, _, values, err := t.getRangeProof(key, cpSucc(key), 2)
 	if err != nil {
 		return nil, nil, errors.Wrap(err, "constructing range proof")
 	}
